@@ -46,6 +46,8 @@ pub mod c09;
 pub mod c09pp;
 #[cfg(any(feature = "p09"))]
 pub mod c09osk;
+#[cfg(any(feature = "p09"))]
+pub mod pipe_osu;
 #[cfg(any(feature = "p10"))]
 pub mod c10;
 #[cfg(any(feature = "p11"))]
